@@ -1,4 +1,4 @@
-import BR.Model.FindMissing
+import BR.Lemmas.FindMissing
 import BR.Gen.Consts
 /-!
 # C10 — FindMissingBlobs reports exactly the absent digests
@@ -12,24 +12,6 @@ in any order; the survivors are compacted in request order.
 namespace BR.Props.C10
 open BR.FindMissing
 
-theorem go_eq_filter (batch : Nat) (hb : 0 < batch) (idx : Index) (proxy : Proxy) (maxProxy : Int) :
-    ∀ (fuel i : Nat) (ds : List Digest), ds.length ≤ fuel →
-      go batch (fun _ => idx) proxy maxProxy fuel i ds = ds.filter (stillMissing idx proxy maxProxy) := by
-  intro fuel
-  induction fuel with
-  | zero =>
-    intro i ds h
-    have : ds = [] := List.length_eq_zero_iff.mp (by omega)
-    subst this; rfl
-  | succ n ih =>
-    intro i ds h
-    cases ds with
-    | nil => rfl
-    | cons d rest =>
-      unfold go
-      rw [ih (i + 1) ((d :: rest).drop batch) (by simp only [List.length_drop, List.length_cons] at h ⊢; omega)]
-      rw [← List.filter_append, List.take_append_drop]
-
 /-- **exactly the absent digests, for every batch size and every list length**: with an index that
 does not change during the call, the answer is the request list filtered by "absent locally (or
 present only with another size) and not vouched for by the back end (or too large for it)",
@@ -39,45 +21,11 @@ theorem chunked_eq_filter (batch : Nat) (hb : 0 < batch) (idx : Index) (proxy : 
     findMissing batch (fun _ => idx) proxy maxProxy ds = ds.filter (stillMissing idx proxy maxProxy) :=
   go_eq_filter batch hb idx proxy maxProxy ds.length 0 ds (Nat.le_refl _)
 
-theorem go_sublist (batch : Nat) (idxAt : Nat → Index) (proxy : Proxy) (maxProxy : Int) :
-    ∀ (fuel i : Nat) (ds : List Digest), (go batch idxAt proxy maxProxy fuel i ds).Sublist ds := by
-  intro fuel
-  induction fuel with
-  | zero => intro i ds; exact List.nil_sublist _
-  | succ n ih =>
-    intro i ds
-    cases ds with
-    | nil => exact List.Sublist.refl _
-    | cons d rest =>
-      unfold go
-      have h1 : (((d :: rest).take batch).filter (stillMissing (idxAt i) proxy maxProxy)).Sublist ((d :: rest).take batch) :=
-        List.filter_sublist
-      have h2 := ih (i + 1) ((d :: rest).drop batch)
-      have := List.Sublist.append h1 h2
-      rwa [List.take_append_drop] at this
-
 /-- **request order and duplicates are preserved** even while the index changes between batches:
 the answer is always a sublist of the request -/
 theorem result_is_ordered_sublist (batch : Nat) (idxAt : Nat → Index) (proxy : Proxy) (maxProxy : Int)
     (ds : List Digest) : (findMissing batch idxAt proxy maxProxy ds).Sublist ds :=
   go_sublist batch idxAt proxy maxProxy ds.length 0 ds
-
-theorem mem_go (batch : Nat) (idxAt : Nat → Index) (proxy : Proxy) (maxProxy : Int) :
-    ∀ (fuel i : Nat) (ds : List Digest) (d : Digest), d ∈ go batch idxAt proxy maxProxy fuel i ds →
-      ∃ j, stillMissing (idxAt j) proxy maxProxy d = true := by
-  intro fuel
-  induction fuel with
-  | zero => intro i ds d h; cases h
-  | succ n ih =>
-    intro i ds d h
-    cases ds with
-    | nil => cases h
-    | cons x rest =>
-      unfold go at h
-      rw [List.mem_append] at h
-      rcases h with h | h
-      · exact ⟨i, (List.mem_filter.mp h).2⟩
-      · exact ih _ _ d h
 
 /-- **a blob that is present throughout the call is never reported missing**: if every index state
 during the call finds the digest (with the stated size), it is not in the answer; the same holds
@@ -96,28 +44,6 @@ theorem empty_blob_never_missing (batch : Nat) (idxAt : Nat → Index) (proxy : 
   intro j
   simp [stillMissing, localFound]
 
-theorem go_reports (batch : Nat) (hb : 0 < batch) (idxAt : Nat → Index) (proxy : Proxy) (maxProxy : Int) :
-    ∀ (fuel i : Nat) (ds : List Digest) (d : Digest), ds.length ≤ fuel → d ∈ ds →
-      (∀ j, stillMissing (idxAt j) proxy maxProxy d = true) → d ∈ go batch idxAt proxy maxProxy fuel i ds := by
-  intro fuel
-  induction fuel with
-  | zero =>
-    intro i ds d h hd
-    have : ds = [] := List.length_eq_zero_iff.mp (by omega)
-    subst this; cases hd
-  | succ n ih =>
-    intro i ds d h hd hm
-    cases ds with
-    | nil => cases hd
-    | cons x rest =>
-      unfold go
-      rw [List.mem_append]
-      have hsplit : d ∈ (x :: rest).take batch ∨ d ∈ (x :: rest).drop batch := by
-        rw [← List.mem_append, List.take_append_drop]; exact hd
-      rcases hsplit with h1 | h1
-      · exact Or.inl (List.mem_filter.mpr ⟨h1, hm i⟩)
-      · exact Or.inr (ih _ _ d (by simp only [List.length_drop, List.length_cons] at h ⊢; omega) h1 hm)
-
 /-- **a blob that is absent throughout the call is reported**: absent locally (or present only with
 another size) in every index state, and not vouched for by the back end or larger than
 `max_proxy_blob_size` -/
@@ -132,32 +58,6 @@ theorem oversize_for_proxy_stays_missing (idx : Index) (has : Digest → Bool) (
     (hl : localFound idx d = false) (hbig : d.size > maxProxy) :
     stillMissing idx (some has) maxProxy d = true := by
   simp [stillMissing, hl, hbig]
-
-/-- **worker order is irrelevant**: the slice after the workers cleared the slots of the found
-digests depends only on which slots were cleared, not on the order of the writes -/
-theorem applyWrites_get {α} (order : List Nat) (slots : List (Option α)) (i : Nat) :
-    (applyWrites order slots)[i]? = if i ∈ order then (if i < slots.length then some none else none) else slots[i]? := by
-  unfold applyWrites
-  induction order generalizing slots with
-  | nil => simp
-  | cons o os ih =>
-    simp only [List.foldl_cons]
-    rw [ih]
-    simp only [List.length_set, List.mem_cons]
-    by_cases hio : i = o
-    · subst hio
-      by_cases hmem : i ∈ os
-      · simp [hmem]
-      · simp only [hmem, if_false, or_false, if_true]
-        by_cases hlt : i < slots.length
-        · simp [hlt, List.getElem?_set]
-        · simp [hlt, List.getElem?_set, List.getElem?_eq_none (Nat.le_of_not_lt hlt)]
-    · by_cases hmem : i ∈ os
-      · simp [hmem, hio]
-      · simp only [hmem, if_false, hio, false_or]
-        rw [List.getElem?_set]
-        have : ¬ o = i := fun h => hio h.symm
-        simp [this]
 
 theorem worker_order_irrelevant {α} (o1 o2 : List Nat) (slots : List (Option α)) (hperm : ∀ i, i ∈ o1 ↔ i ∈ o2) :
     applyWrites o1 slots = applyWrites o2 slots := by
